@@ -411,6 +411,9 @@ func C03(tier string) int {
 	rep.Set("alphabet_size_2ids", n)
 	if tier == "quick" {
 		runE1(rep, sc, explore.Config{Programs: explore.SingleOps(n)})
+		// several operations per transaction (index maintenance must not rely on committed-only information)
+		scq := newIdxScenario([]string{"e1", "e1x"})
+		runE1(rep, &renamed{Scenario: scq, name: "S_idx[2 ids, 2-op tx core]"}, explore.Config{Programs: pairsCore(scq.Ops())})
 	} else {
 		runE1(rep, sc, explore.Config{Programs: explore.SingleOps(n)})
 		// two operations per transaction (accepted and rejected in either position)
@@ -444,6 +447,24 @@ func pairsSubset(ops []explore.Op) [][]int {
 	for _, i := range core {
 		for _, j := range core {
 			out = append(out, []int{i, j})
+		}
+	}
+	return out
+}
+
+// pairsCore: all ordered pairs over creates, full updates that keep alias null, and deletes.
+func pairsCore(ops []explore.Op) [][]int {
+	var core []int
+	for i, o := range ops {
+		n := o.Name
+		if strings.HasPrefix(n, "delete(") || ((strings.HasPrefix(n, "create(") || strings.HasPrefix(n, "update(")) && strings.Contains(n, "alias=null") && !strings.Contains(n, `name=""`)) {
+			core = append(core, i)
+		}
+	}
+	var out [][]int
+	for _, a := range core {
+		for _, b := range core {
+			out = append(out, []int{a, b})
 		}
 	}
 	return out
